@@ -72,6 +72,12 @@ class Driver:
             fx.add_instrument(self.butler, f"Cam{i}", detectors=range(NDET), filters=())
         fx.add_dataset_type(self.butler, "dt0")
         fx.add_dataset_type(self.butler, "dt1")
+        # a governor the searched dataset types do NOT have: two skymaps and a dataset type over {skymap} only, so that
+        # collection summaries carry skymap values and find-first queries can be constrained by a foreign governor
+        for g in range(2):
+            self.butler.registry.insertDimensionData("skymap", {"name": f"S{g}", "hash": bytes([g]) * 4, "tract_max": 1,
+                                                                "patch_nx_max": 1, "patch_ny_max": 1})
+        fx.add_dataset_type(self.butler, "dtS", dimensions=("skymap",))
         self.reg = self.butler.registry
         self.sql = self.butler._registry
         self.refs = {}
@@ -103,6 +109,11 @@ class Driver:
                 ref = self.butler.put({"k": k}, f"dt{ty}", did_of(d), run=cname(coll))
                 self.refs[k] = ref
                 self.id2k[str(ref.id)] = k
+        elif kind == "sky":
+            # a dataset of the {skymap}-only type: invisible to the searches for dt0 / dt1, but it puts a skymap value
+            # into the collection's governor summary
+            _, coll, g = op
+            self.butler.put({"sky": g}, "dtS", {"skymap": f"S{g}"}, run=cname(coll))
         elif kind == "edit":
             _, ek, p, cs, via = op
             names = [cname(x) for x in cs]
@@ -162,18 +173,21 @@ class Driver:
         path = [cname(x) for x in p["ns"]]
         dt = f"dt{p['ty']}"
         out = {}
+        # fg: constrain the query-based searches by a governor the dataset type does not have (skymap); every skymap
+        # named exists, so the answer must be the one of the unconstrained search
+        fg = {} if p.get("fg") is None else {"where": f"skymap = 'S{p['fg']}'"}
         for api in p["apis"]:
             per_d = {}
             if p["gc"] or api in (0, 1, 4):
                 for d in p["ds"]:
-                    per_d[str(d)] = self._find_one(api, dt, did_of(d), path)
+                    per_d[str(d)] = self._find_one(api, dt, did_of(d), path, fg)
             else:
                 # one unconstrained query, split by data ID
                 try:
                     if api == 2:
-                        refs = self.butler.query_datasets(dt, collections=path, find_first=True, explain=False, limit=None)
+                        refs = self.butler.query_datasets(dt, collections=path, find_first=True, explain=False, limit=None, **fg)
                     else:
-                        refs = list(self.reg.queryDatasets(dt, collections=path, findFirst=True))
+                        refs = list(self.reg.queryDatasets(dt, collections=path, findFirst=True, **fg))
                     for d in p["ds"]:
                         per_d[str(d)] = {"l": self.ks([r for r in refs if d_of(r.dataId) == d])}
                 except Exception as e:  # noqa: BLE001
@@ -182,7 +196,8 @@ class Driver:
             out[str(api)] = per_d
         return out
 
-    def _find_one(self, api, dt, data_id, path):
+    def _find_one(self, api, dt, data_id, path, fg=None):
+        fg = fg or {}
         try:
             if api == 0:
                 r = self.butler.find_dataset(dt, data_id, collections=path)
@@ -192,9 +207,9 @@ class Driver:
                 return {"l": self.ks([r] if r is not None else [])}
             if api == 2:
                 return {"l": self.ks(self.butler.query_datasets(dt, collections=path, find_first=True, data_id=data_id,
-                                                                explain=False, limit=None))}
+                                                                explain=False, limit=None, **fg))}
             if api == 3:
-                return {"l": self.ks(self.reg.queryDatasets(dt, collections=path, findFirst=True, dataId=data_id))}
+                return {"l": self.ks(self.reg.queryDatasets(dt, collections=path, findFirst=True, dataId=data_id, **fg))}
             if api == 4:
                 from lsst.daf.butler import DatasetNotFoundError
                 try:
